@@ -1,18 +1,449 @@
-//! Concurrent scenarios (E3). The case description lives here so that replay files of every
-//! engine share one schema.
+//! Concurrent scenarios (E3): reader / creator threads with one database clone each, a writer
+//! (the main thread, owner of the original handle) acting at a scheduler-chosen moment, token
+//! cancellation by a controller, panics injected into user code while other threads wait.
+//! The case description lives here so that replay files of every engine share one schema.
 
 use serde::{Deserialize, Serialize};
+
+#[derive(Clone, Debug, PartialEq, Eq, Serialize, Deserialize, Hash)]
+pub enum Req {
+    Query { n: u16, arg: u32, deep: bool },
+    /// intern directly (outside any query) and read the field back
+    Intern { t: u8, v: u32 },
+    /// create a new input and read its fields back
+    NewInput { v: u32 },
+    /// clone the own handle, query on the clone, drop it
+    CloneQueryDrop { n: u16, arg: u32 },
+    Yield,
+}
+
+#[derive(Clone, Debug, PartialEq, Eq, Serialize, Deserialize, Hash)]
+pub enum WriterOp {
+    SetIn { i: u16, f: u8, v: u32 },
+    Synthetic,
+    SetLru { cap: u8 },
+    TriggerLru,
+    TriggerCancel,
+}
+
+#[derive(Clone, Debug, PartialEq, Eq, Serialize, Deserialize, Hash, Default)]
+pub struct Round {
+    pub readers: Vec<Vec<Req>>,
+    /// performed by the main thread while the readers run, after `writer_delay` yields
+    pub writer: Option<WriterOp>,
+    pub writer_delay: u8,
+    /// (reader index, yields before the controller calls cancel() on that reader's token)
+    pub cancels: Vec<(u8, u8)>,
+}
 
 #[derive(Clone, Debug, PartialEq, Eq, Serialize, Deserialize, Default)]
 pub struct ConcCase {
     pub scenario: String,
-    pub threads: usize,
-    /// per-thread request lists (node, arg)
-    pub requests: Vec<Vec<(u16, u32)>>,
+    pub rounds: Vec<Round>,
     pub sched_seed: u64,
-    pub stay_pct: u32,
+    /// "random" | "pct" | "rr"
     pub strategy: String,
-    /// recorded scheduler choices (replay)
+    pub stay_pct: u32,
+    pub pct_depth: u32,
+    pub spurious_pct: u32,
+    pub max_steps: u64,
+    /// recorded scheduler choices (replay); empty = explore from the seed
     #[serde(default)]
     pub choices: Vec<u16>,
+}
+
+#[cfg(feature = "e3")]
+pub use imp::run_conc;
+
+#[cfg(feature = "e3")]
+mod imp {
+    use super::*;
+    use crate::case::*;
+    use crate::db::*;
+    use crate::e1::{Obs, PK, observe, panic_kind};
+    use crate::prog::*;
+    use crate::refi::{Eval, World};
+    use crate::rng::{hash64, hash_str};
+    use salsa::plumbing::AsId;
+    use std::collections::{BTreeMap, BTreeSet, HashMap};
+    use std::panic::{AssertUnwindSafe, catch_unwind};
+    use std::sync::atomic::Ordering::SeqCst;
+    use std::sync::{Arc, Mutex};
+
+    #[derive(Debug, Clone)]
+    pub enum Outc {
+        Val(Obs),
+        Interned { t: usize, v: u32, id: u64, back: u32 },
+        Input { id: u64, v: u32, back: [u32; 3] },
+        Panic(PK),
+        None,
+    }
+
+    #[derive(Debug, Clone, Default)]
+    pub struct RoundLog {
+        pub pre: Option<World>,
+        pub post: Option<World>,
+        /// per reader: outcome per request (stops early after PendingWrite)
+        pub results: Vec<Vec<Outc>>,
+        pub events: Vec<Ev>,
+        /// main thread's verification requests after the round: (node, outcome)
+        pub after: Vec<(usize, Outc)>,
+        pub writer_panic: Option<PK>,
+        pub cancelled: Vec<usize>,
+    }
+
+    fn reader_body(db: SimDatabase, reqs: Vec<Req>, writer_round: bool) -> Vec<Outc> {
+        let mut out = vec![];
+        for r in reqs {
+            let o = match r {
+                Req::Yield => {
+                    crate::sched_yield();
+                    Outc::None
+                }
+                Req::Query { n, arg, deep } => match catch_unwind(AssertUnwindSafe(|| observe(&db, n as usize, arg, deep))) {
+                    Ok(o) => Outc::Val(o),
+                    Err(p) => Outc::Panic(panic_kind(&p)),
+                },
+                Req::CloneQueryDrop { n, arg } => {
+                    let d2 = db.clone();
+                    let r = catch_unwind(AssertUnwindSafe(|| observe(&d2, n as usize, arg, false)));
+                    drop(d2);
+                    match r {
+                        Ok(o) => Outc::Val(o),
+                        Err(p) => Outc::Panic(panic_kind(&p)),
+                    }
+                }
+                Req::Intern { t, v } => match catch_unwind(AssertUnwindSafe(|| {
+                    let h = intern_any(&db, t as usize, v);
+                    (h.id().as_bits(), h.v(&db))
+                })) {
+                    Ok((id, back)) => Outc::Interned { t: t as usize % 4, v, id, back },
+                    Err(p) => Outc::Panic(panic_kind(&p)),
+                },
+                Req::NewInput { v } => match catch_unwind(AssertUnwindSafe(|| {
+                    let i = In::new(&db, v, v.wrapping_add(1), v.wrapping_add(2));
+                    crate::sched_yield();
+                    (i.as_id().as_bits(), [i.f0(&db), i.f1(&db), i.f2(&db)])
+                })) {
+                    Ok((id, back)) => Outc::Input { id, v, back },
+                    Err(p) => Outc::Panic(panic_kind(&p)),
+                },
+            };
+            let stop = matches!(&o, Outc::Panic(PK::Cancelled(c)) if c == "PendingWrite");
+            let stop = stop || (writer_round && matches!(&o, Outc::Panic(PK::Cancelled(c)) if c == "PropagatedPanic"));
+            out.push(o);
+            if stop {
+                // a cancelled reader drops its handle so that the writer can proceed
+                break;
+            }
+        }
+        drop(db);
+        out
+    }
+
+    fn apply_writer(db: &mut SimDatabase, world: &mut World, op: &WriterOp) {
+        match op {
+            WriterOp::SetIn { i, f, v } => {
+                db.set_in(*i as usize, *f as usize, *v, None);
+                world.ins[*i as usize][*f as usize] = *v;
+            }
+            WriterOp::Synthetic => salsa::Database::synthetic_write(db, salsa::Durability::LOW),
+            WriterOp::SetLru { cap } => set_lru_cap(db, *cap as usize),
+            WriterOp::TriggerLru => salsa::Database::trigger_lru_eviction(db),
+            WriterOp::TriggerCancel => salsa::Database::trigger_cancellation(db),
+        }
+    }
+
+    fn scenario(case: Case, logs: Arc<Mutex<Vec<RoundLog>>>) {
+        let conc = case.conc.clone().unwrap();
+        let mut world: World = (&case.world).into();
+        let mut db = SimDatabase::new(&case.prog, &world);
+        if let Some(k) = case.panic_at {
+            fault::arm(k);
+        }
+        let queryable: Vec<usize> = (0..case.prog.nodes.len()).filter(|i| case.prog.nodes[*i].kind.keyed_by_node() || case.prog.nodes[*i].kind == Kind::Zero).collect();
+        for round in &conc.rounds {
+            let mut log = RoundLog { pre: Some(world.clone()), ..Default::default() };
+            let mut handles = vec![];
+            let mut tokens = vec![];
+            for reqs in &round.readers {
+                let dbc = db.clone();
+                tokens.push(salsa::Database::cancellation_token(&dbc));
+                let reqs = reqs.clone();
+                let wr = round.writer.is_some();
+                handles.push(shuttle::thread::spawn(move || reader_body(dbc, reqs, wr)));
+            }
+            // controller: cancel tokens at scheduler-chosen moments
+            for (ti, delay) in &round.cancels {
+                for _ in 0..*delay {
+                    crate::sched_yield();
+                }
+                if let Some(t) = tokens.get(*ti as usize) {
+                    t.cancel();
+                    log.cancelled.push(*ti as usize);
+                }
+            }
+            drop(tokens);
+            if let Some(op) = &round.writer {
+                for _ in 0..round.writer_delay {
+                    crate::sched_yield();
+                }
+                let mut w2 = world.clone();
+                let r = catch_unwind(AssertUnwindSafe(|| apply_writer(&mut db, &mut w2, op)));
+                match r {
+                    Ok(()) => world = w2,
+                    Err(p) => {
+                        let pk = panic_kind(&p);
+                        if matches!(pk, PK::Injected(..)) {
+                            // the write was interrupted by the fault plan: perform it again
+                            let mut w3 = world.clone();
+                            if catch_unwind(AssertUnwindSafe(|| apply_writer(&mut db, &mut w3, op))).is_ok() {
+                                world = w3;
+                            }
+                        }
+                        log.writer_panic = Some(pk);
+                    }
+                }
+            }
+            for h in handles {
+                match h.join() {
+                    Ok(v) => log.results.push(v),
+                    Err(p) => log.results.push(vec![Outc::Panic(panic_kind(&p))]),
+                }
+            }
+            log.post = Some(world.clone());
+            // verification by the main thread (single handle left): everything must be usable
+            fault::disarm();
+            for n in queryable.iter().rev().take(6) {
+                let o = match catch_unwind(AssertUnwindSafe(|| observe(&db, *n, 0, false))) {
+                    Ok(o) => Outc::Val(o),
+                    Err(p) => Outc::Panic(panic_kind(&p)),
+                };
+                log.after.push((*n, o));
+            }
+            log.events = db.shared.take_log();
+            logs.lock().unwrap_or_else(|e| e.into_inner()).push(log);
+        }
+        drop(db);
+    }
+
+    fn expected(prog: &Program, world: &World, n: usize, arg: u32, deep: bool) -> (Option<Obs>, bool) {
+        if prog.is_cyclic() {
+            let cr = crate::refcyc::CycRef::solve(prog, world);
+            (Some(Obs { v: cr.vals[n], ts: vec![], vec: vec![], its: vec![] }), cr.panic_possible(n))
+        } else {
+            let mut ev = Eval::new(prog, world);
+            (crate::e1::expected_obs(&mut ev, prog, n, arg, deep).ok(), false)
+        }
+    }
+
+    pub fn run_conc(case: &Case) -> RunOut {
+        let mut out = RunOut::default();
+        let conc = case.conc.clone().expect("concurrent case");
+        fault::reset();
+        fault::HASH_MOD.store(case.knobs.hash_mod, SeqCst);
+        fault::MASK.store(case.fault_mask, SeqCst);
+        let strategy = match conc.strategy.as_str() {
+            "pct" => shuttle::rt::Strategy::Pct { depth: conc.pct_depth, horizon: 4000 },
+            "rr" => shuttle::rt::Strategy::RoundRobin,
+            _ => shuttle::rt::Strategy::Random { stay_pct: conc.stay_pct },
+        };
+        let cfg = shuttle::rt::Config {
+            seed: conc.sched_seed,
+            strategy,
+            max_steps: conc.max_steps,
+            spurious_pct: conc.spurious_pct,
+            replay: if conc.choices.is_empty() { None } else { Some(conc.choices.clone()) },
+        };
+        let logs: Arc<Mutex<Vec<RoundLog>>> = Arc::new(Mutex::new(vec![]));
+        let l2 = logs.clone();
+        let c2 = case.clone();
+        let oc = shuttle::rt::check(cfg, move || scenario(c2, l2));
+        out.steps = oc.steps;
+        out.add("sched_steps", oc.steps);
+        out.add("context_switches", oc.switches);
+        out.add("fault_spurious_wakeups_fired", oc.spurious_fired);
+        out.add("blocked_events", oc.blocked_events);
+        out.add("threads", oc.threads as u64);
+        out.add("faults_fired", fault::FIRED.load(SeqCst));
+        let mut ch = 0u64;
+        for c in &oc.choices {
+            ch = hash64(ch, *c as u64);
+        }
+        out.digest = ch;
+        out.choices = oc.choices.clone();
+        if let Some(f) = &oc.failure {
+            let class = if f.starts_with("deadlock") {
+                "deadlock"
+            } else if f.starts_with("livelock") {
+                "livelock"
+            } else {
+                "harness_replay_divergence"
+            };
+            out.viol(class, 0, f.clone());
+            return out;
+        }
+        let logs = logs.lock().unwrap_or_else(|e| e.into_inner()).clone();
+        let prog = &case.prog;
+        let faulty = case.panic_at.is_some();
+        for (ri, (round, log)) in conc.rounds.iter().zip(logs.iter()).enumerate() {
+            out.revisions += 1;
+            let pre = log.pre.as_ref().unwrap();
+            let post = log.post.as_ref().unwrap();
+            let has_writer = round.writer.is_some();
+            if let Some(pk) = &log.writer_panic {
+                if !matches!(pk, PK::Injected(..)) {
+                    out.viol("writer_panicked", ri, format!("the write of round {ri} panicked: {pk:?}"));
+                }
+            }
+            let mut interned: HashMap<(usize, u32), u64> = HashMap::new();
+            let mut id2val: HashMap<u64, (usize, u32)> = HashMap::new();
+            let mut input_ids: BTreeSet<u64> = BTreeSet::new();
+            for (ti, (reqs, res)) in round.readers.iter().zip(log.results.iter()).enumerate() {
+                let mut local_cancels = 0;
+                for (req, o) in reqs.iter().zip(res.iter()) {
+                    out.digest = hash_str(out.digest, &format!("{o:?}"));
+                    match (req, o) {
+                        (Req::Query { n, arg, .. }, Outc::Val(g)) | (Req::CloneQueryDrop { n, arg }, Outc::Val(g)) => {
+                            let deep = matches!(req, Req::Query { deep: true, .. });
+                            let (e, _) = expected(prog, pre, *n as usize, *arg, deep);
+                            out.bump("reader_values_compared");
+                            match e {
+                                Some(e) if &e == g => {}
+                                Some(e) => out.viol("value_mismatch", ri, format!("round {ri} reader {ti} node {n}: expected {e:?} (revision the reader ran in) got {g:?}")),
+                                None => out.viol("missing_panic", ri, format!("round {ri} reader {ti} node {n}: reference aborts, got {g:?}")),
+                            }
+                        }
+                        (Req::Query { n, arg, .. }, Outc::Panic(pk)) | (Req::CloneQueryDrop { n, arg }, Outc::Panic(pk)) => {
+                            let (e, cyc_panic_ok) = expected(prog, pre, *n as usize, *arg, false);
+                            let ok = match pk {
+                                PK::Cancelled(c) if c == "PendingWrite" => {
+                                    out.bump("fault_pending_write_cancellations");
+                                    has_writer
+                                }
+                                PK::Cancelled(c) if c == "Local" => {
+                                    local_cancels += 1;
+                                    out.bump("fault_local_cancellations");
+                                    log.cancelled.contains(&ti) && local_cancels <= log.cancelled.iter().filter(|x| **x == ti).count()
+                                }
+                                PK::Cancelled(c) if c == "PropagatedPanic" => {
+                                    out.bump("propagated_panics");
+                                    // a reader that waits on (or meets the poisoned cycle head of) a
+                                    // reader unwound by the pending write is itself cancelled with
+                                    // PropagatedPanic (release_panicking reports Panicked unless the
+                                    // cancellation was local)
+                                    faulty || cyc_panic_ok || has_writer
+                                }
+                                PK::Injected(..) => {
+                                    out.bump("fault_panic_reached_caller");
+                                    faulty
+                                }
+                                PK::Msg(m) if m.contains("dependency graph cycle") => {
+                                    out.bump("cycle_panic_seen");
+                                    cyc_panic_ok
+                                }
+                                PK::Msg(m) if e.is_none() && (m.contains("specify")) => true,
+                                _ => false,
+                            };
+                            if !ok {
+                                out.viol("unexpected_panic", ri, format!("round {ri} reader {ti} node {n}: {pk:?}"));
+                            }
+                        }
+                        (Req::Intern { .. }, Outc::Interned { t, v, id, back }) => {
+                            out.bump("interned_outside");
+                            if back != v {
+                                out.viol("value_mismatch", ri, format!("interned {v}, read back {back}"));
+                            }
+                            if let Some(old) = interned.insert((*t, *v), *id) {
+                                if old != *id {
+                                    out.viol("interned_not_canonical", ri, format!("type {t} value {v}: handles {old:#x} and {id:#x} within one revision"));
+                                }
+                            }
+                            if let Some(ov) = id2val.insert(*id, (*t, *v)) {
+                                if ov != (*t, *v) {
+                                    out.viol("interned_handle_aliased", ri, format!("handle {id:#x} returned for {ov:?} and ({t},{v})"));
+                                }
+                            }
+                        }
+                        (Req::NewInput { .. }, Outc::Input { id, v, back }) => {
+                            out.bump("inputs_created");
+                            if !input_ids.insert(*id) {
+                                out.viol("identity_not_distinct", ri, format!("two inputs created concurrently share id {id:#x}"));
+                            }
+                            if *back != [*v, v.wrapping_add(1), v.wrapping_add(2)] {
+                                out.viol("value_mismatch", ri, format!("input created with {v}, read back {back:?}"));
+                            }
+                        }
+                        (_, Outc::Panic(pk)) => {
+                            if !(faulty && matches!(pk, PK::Injected(..) | PK::Cancelled(_))) && !(has_writer && matches!(pk, PK::Cancelled(c) if c == "PendingWrite")) {
+                                out.viol("unexpected_panic", ri, format!("round {ri} reader {ti} {req:?}: {pk:?}"));
+                            }
+                        }
+                        _ => {}
+                    }
+                }
+            }
+            // probes / events of the round
+            let mut execs: BTreeMap<(u32, u64), u32> = BTreeMap::new();
+            let mut intern_probe: HashMap<(usize, u32), u64> = HashMap::new();
+            let mut ts_ids: HashMap<u64, (u64, u32)> = HashMap::new();
+            for e in &log.events {
+                match e {
+                    Ev::Salsa { k: SK::WillExecute, ing, id, .. } => *execs.entry((*ing, *id)).or_insert(0) += 1,
+                    Ev::Salsa { k: SK::WillBlockOn, .. } => out.bump("ev_will_block_on"),
+                    Ev::Salsa { k: SK::WillIterateCycle, x, .. } => {
+                        out.bump("cycle_iterations");
+                        if *x > 200 {
+                            out.viol("iteration_bound_exceeded", ri, format!("iteration {x}"));
+                        }
+                    }
+                    Ev::Intern { t, v, id, .. } => {
+                        if let Some(old) = intern_probe.insert((*t, *v), *id) {
+                            if old != *id && !has_writer {
+                                out.viol("interned_not_canonical", ri, format!("type {t} value {v}: handles {old:#x} and {id:#x} within one revision (inside queries)"));
+                            }
+                        }
+                        if let Some(o) = interned.get(&(*t, *v)) {
+                            if o != id && !has_writer {
+                                out.viol("interned_not_canonical", ri, format!("type {t} value {v}: handle {o:#x} outside a query, {id:#x} inside"));
+                            }
+                        }
+                    }
+                    Ev::NewTs { creator, ident, id, .. } => {
+                        if let Some(o) = ts_ids.insert(*id, (*creator, *ident)) {
+                            if o != (*creator, *ident) && !has_writer {
+                                out.viol("identity_not_distinct", ri, format!("tracked struct id {id:#x} used for {o:?} and ({creator},{ident}) in one revision"));
+                            }
+                        }
+                    }
+                    _ => {}
+                }
+            }
+            out.add("ev_will_execute", execs.values().map(|x| *x as u64).sum());
+            if case.property == "C17" && !prog.is_cyclic() && !faulty && round.cancels.is_empty() && !has_writer {
+                for ((ing, id), c) in &execs {
+                    if *c > 1 {
+                        out.viol("executed_twice_in_revision", ri, format!("function ingredient {ing} key {id:#x} executed {c} times in one revision"));
+                    }
+                }
+                out.add("keys_checked_single_execution", execs.len() as u64);
+            }
+            // after the round everything is usable and equals the reference of the new inputs
+            for (n, o) in &log.after {
+                let (e, cyc_ok) = expected(prog, post, *n, 0, false);
+                match o {
+                    Outc::Val(g) => match e {
+                        Some(e) if &e == g => out.bump("post_round_values_compared"),
+                        Some(e) => out.viol("value_mismatch_after_round", ri, format!("after round {ri} node {n}: expected {e:?} got {g:?}")),
+                        None => {}
+                    },
+                    Outc::Panic(PK::Msg(m)) if cyc_ok && m.contains("dependency graph cycle") => {}
+                    Outc::Panic(PK::Cancelled(c)) if c == "PropagatedPanic" && (cyc_ok || (faulty && prog.is_cyclic())) => out.bump("poisoned_head_observed"),
+                    Outc::Panic(pk) => out.viol("unexpected_panic_after_round", ri, format!("after round {ri} node {n}: {pk:?}")),
+                    _ => {}
+                }
+            }
+        }
+        out
+    }
 }
